@@ -58,7 +58,7 @@ def gen(rng):
                 G.make_entry(rng, d + '/' + nm, rng.choice(['file', 'file', 'empty', 'dir', 'link_file', 'link_dangling', 'emptydir']), steps, aux)
                 user.append((d, nm))
     start = _dt.datetime(2024, rng.randint(1, 12), rng.randint(1, 28), rng.randint(0, 23), rng.randint(0, 59), rng.randint(0, 59), rng.randrange(10**6))
-    TG.populate(rng, L, steps, names=pool, now=start, only_usable=True)
+    TG.populate(rng, L, steps, names=pool, now=start, only_usable=True, kinds=('file', 'file', 'dir', 'link', 'none'))
     dirs = ['/', home, home + '/w', home + '/w/sub'] + [L['work'][v] for v in L['vols']] + list(L['vols'])
     procs = []
     for _k in range(rng.randint(4, 14) if TIER == 'quick' else rng.randint(5, 40)):
@@ -96,7 +96,7 @@ def gen(rng):
             procs.append({'argv': ['trash-list'], 'env': env, 'cwd': rng.choice(dirs), 'uid': uid, 'advance': adv})
         else:
             fs = []
-            TG.populate(rng, L, fs, n=rng.randint(1, 2), names=pool, now=start, only_usable=True)
+            TG.populate(rng, L, fs, n=rng.randint(1, 2), names=pool, now=start, only_usable=True, kinds=('file', 'dir', 'link', 'none'))
             # foreign additions use fresh trash names
             tag = 'foreign%d_' % len(procs)
             for s in fs:
